@@ -209,12 +209,13 @@ def check_property(prop, tier, seed, jobs, verbose):
     # The first pass runs 16 functions side by side; a solver that ran out of memory or time there (other checks on
     # the machine, a worker of an earlier run still alive) answers `unknown`, which must not become a VIOLATION.
     # Functions with such obligations are verified again, few at a time; a function is reported only if it fails again.
+    # (quick tier: only while the check is younger than 300 s, and for at most 300 s - the watchdog fires at 840 s.)
     second_pass = []
     gave_up = [i for i, r in enumerate(results)
                if not r["error"] and not r["unsupported"] and any(o["status"] != "proved" for o in r["obligations"])]
-    if gave_up and (tier != "quick" or time.time() - t_start < 400) and len(gave_up) <= 8:
+    if gave_up and (tier != "quick" or time.time() - t_start < 300) and len(gave_up) <= 8:
         again = runner.run_items([items_by_result(results[i], timeout_ms, thorough) for i in gave_up], min(4, len(gave_up)),
-                                 item_timeout=(780 - int(time.time() - t_start) - 60) if tier == "quick" else 5 * 3600)
+                                 item_timeout=min(300, 700 - int(time.time() - t_start)) if tier == "quick" else 5 * 3600)
         for i, r2 in zip(gave_up, again):
             r1 = results[i]
             n1 = sum(o["status"] != "proved" for o in r1["obligations"])
